@@ -18,7 +18,8 @@ Refs (arguments of ops):
   ["IB", ref] implementedBy(ref)             ["sup", c, j] super(class c, object j)
 Ops: see ``do`` (declarations, specification queries, comparison / hash / sort, adaptation,
 adapter_hooks, registry mutation and every lookup entry point incl. odd arguments, attribute
-protocol reads).
+protocol reads, direct two-argument ``descriptor.__get__`` calls, bare instances of the documented
+base classes).
 
 Observation per case:
   {"tokens": [token ...]    one canonical token (JSON value without reprs / addresses) per op;
@@ -376,6 +377,10 @@ DECLS = {
 }
 
 
+def inst_of(cls):
+    return cls()
+
+
 def lazy(items):
     for x in items:
         yield x
@@ -479,6 +484,8 @@ class Interp:
             ob, name = w.ref(op[1]), op[2]
             Rows.descr_get(self, n, ob, name)
             return C(getattr(ob, name))
+        if k == "bare":
+            return self.bare(op, n)
         if k == "descr_get":
             # a direct two-argument call of the descriptor's __get__ (what inspect-like code does):
             # ["descr_get", "osd", inst | None, cls | None]
@@ -548,6 +555,69 @@ class Interp:
             except ValueError:
                 return "EXC:ValueError"
         raise RuntimeError("unknown op %r" % (op,))
+
+    def bare(self, op, n):
+        """bare instances of the documented base classes (slots never assigned):
+        ["bare", what, class ref, interface ref]"""
+        from zope.interface.interface import InterfaceBase
+        w = self.w
+        cls, iface = w.ref(op[2]), w.ref(op[3])
+        what = op[1]
+
+        def attempt(f):
+            try:
+                return w.canon(f())
+            except Exception as e:
+                return tok_exc(e)
+
+        def code(f):
+            try:
+                f()
+                return 1
+            except AttributeError:
+                return 2
+            except TypeError:
+                return 3
+            except SystemError:
+                return 4
+            except Exception:
+                return 5
+        if what == "ib_hash_unhashable":
+            ib = InterfaceBase([], "m")
+            outs = [code(lambda: hash(ib)), code(lambda: hash(ib))]
+            self.rows.append({"k": "hashfail", "op": n, "outs": outs})
+            return outs
+        if what == "ib_hash_unset":
+            ib = InterfaceBase.__new__(InterfaceBase)
+            return [code(lambda: hash(ib)), code(lambda: hash(ib))]
+        if what in ("cpb_unset", "cpb_no_implements", "cpb_other_cls"):
+            d = ClassProvidesBase()
+            if what != "cpb_unset":
+                d._cls = cls
+            if what == "cpb_other_cls":
+                d._implements = 5
+            owner = cls if what != "cpb_other_cls" else object
+            inst = cls()
+            ids = Ids()
+            out_cls = Rows.outcome(lambda: d.__get__(None, owner), ids)
+            out_inst = Rows.outcome(lambda: d.__get__(inst, owner), ids)
+            sid = ids.of(d)
+            for is_inst, out in ((False, out_cls), (True, out_inst)):
+                self.rows.append({"k": "cpb", "op": n, "cls_set": what != "cpb_unset", "same_cls": what == "cpb_no_implements",
+                                  "inst": is_inst, "self": sid, "implements": ids.of(5) if what == "cpb_other_cls" else 0,
+                                  "out": out})
+            return [attempt(lambda: d.__get__(None, owner) is d), attempt(lambda: d.__get__(inst, owner))]
+        if what == "sb_unset":
+            sb = SpecificationBase()
+            Rows.sb_extends(self, n, sb, iface)
+            return [attempt(lambda: sb.isOrExtends(iface)), attempt(lambda: sb(iface)),
+                    attempt(lambda: sb.providedBy(inst_of(cls))), attempt(lambda: sb.implementedBy(cls))]
+        if what == "sb_implied_none":
+            sp = Specification()
+            sp._implied = None
+            Rows.sb_extends(self, n, sp, iface)
+            return [attempt(lambda: sp.isOrExtends(iface)), attempt(lambda: sp(iface))]
+        raise RuntimeError(what)
 
     def make_hook(self, h):
         w = self.w
